@@ -98,6 +98,11 @@ TFailed ==
   /\ closed' = TRUE /\ l' = l + 1
   /\ UNCHANGED << ovars, tid, seen >>
 
+TReconf ==
+  /\ HasEv("reconf")
+  /\ Reconfigure(Ev.j, Ev.tok)
+  /\ l' = l + 1 /\ Keep
+
 TRerun ==
   /\ HasEv("rerun")
   /\ closed
@@ -108,7 +113,7 @@ TRerun ==
 Diag ==
   /\ "DIAG" \in DOMAIN IOEnv
   /\ l <= Len(Tr.events)
-  /\ ~ ENABLED (TRun \/ TEntry \/ TUserAfter \/ TDone \/ TDoneNoEntries \/ TFailed \/ TRerun \/ SilentPlan \/ SilentMerge \/ SilentRun)
+  /\ ~ ENABLED (TRun \/ TEntry \/ TUserAfter \/ TDone \/ TDoneNoEntries \/ TFailed \/ TRerun \/ TReconf \/ SilentPlan \/ SilentMerge \/ SilentRun)
   /\ PrintT(<<"EXPECTED", tid, l, ToJson([phase |-> phase, plan |-> plan, pending |-> SetToSeq(pending),
                                              seen |-> SetToSeq(seen), error |-> error,
                                              tree |-> [r \in DOMAIN tree |-> tree[r]]])>>)
@@ -116,7 +121,7 @@ Diag ==
   /\ UNCHANGED tvars
 
 TNext == SilentPlan \/ SilentMerge \/ SilentRun \/ TRun \/ TEntry \/ TUserAfter \/ TDone \/ TDoneNoEntries
-         \/ TFailed \/ TRerun \/ Diag
+         \/ TFailed \/ TRerun \/ TReconf \/ Diag
 TSpec == TInit /\ [][TNext]_tvars
 
 Accepted == closed /\ l = Len(Tr.events) + 1
